@@ -2,7 +2,7 @@
    M = the node-vector trie of Model.v (what zipora calls Patricia storage), S = a duplicate-free list of keys. *)
 From ZV.Common Require Import Base Run.
 From ZV.C05 Require Import Model Spec ProofsBase ProofsInsert ProofsRemove ProofsRefine ProofsKeys ProofsLouds ProofsSpec ProofsClone.
-From ZV.C05 Require Import ModelFsa ModelDa ModelCs ModelAll ProofsFsa ProofsDaArr ProofsDaInv ProofsDaReloc ProofsDaReloc2 ProofsDaInsert ProofsDaKeys.
+From ZV.C05 Require Import ModelFsa ModelDa ModelCs ModelAll ProofsFsa ProofsDaArr ProofsDaInv ProofsDaReloc ProofsDaReloc2 ProofsDaInsert ProofsDaKeys ProofsCs.
 Open Scope N_scope.
 
 (* ptrie_refines_set: for EVERY history of insert / remove / contains / len / accepts / longest_prefix calls
@@ -305,3 +305,60 @@ Theorem da_refines_set_with_clone : forall ops, Forall da_op_ok_c ops -> d_noerr
 Proof. exact da_refines_set_with_clone_proof. Qed.
 Check da_refines_set_with_clone : forall ops, Forall da_op_ok_c ops -> d_noerr_c d_empty ops = true -> d_run d_empty ops = s_run [] ops.
 Print Assumptions da_refines_set_with_clone.
+
+(* ------------------------------------------------------------------ compressed-sparse storage as a trie over hash maps (ModelCs.v) *)
+
+(* cs_refines_set: for EVERY history of insert / contains / len / accepts / longest_prefix / clone calls over byte-string
+   keys, the ZiporaTrie over HashMap<StateId, SparseNode> started empty (root created on first insert, ids = max + 1,
+   child inserted before it is linked) answers exactly like the set of keys inserted; insert never takes its
+   `State not found` error branch.  remove is `_ => Ok(false)` (cs_remove_refuted) *)
+Theorem cs_refines_set : forall ops, Forall cs_op_ok ops -> cs_run c_empty ops = s_run [] ops.
+Proof. exact cs_refines_set_proof. Qed.
+Check cs_refines_set : forall ops, Forall cs_op_ok ops -> cs_run c_empty ops = s_run [] ops.
+Print Assumptions cs_refines_set.
+
+Theorem cs_reachable_related : forall ops, Forall cs_op_ok ops -> CRel (cs_exec c_empty ops) (s_exec [] ops).
+Proof. exact cs_reachable_related_proof. Qed.
+Check cs_reachable_related : forall ops, Forall cs_op_ok ops -> CRel (cs_exec c_empty ops) (s_exec [] ops).
+Print Assumptions cs_reachable_related.
+
+(* insert_compressed_sparse returns Ok and adds exactly the key *)
+Theorem cs_insert_adds_exactly : forall m key, bytes_ok key -> COK m ->
+  exists m' e, cs_insert m key = (m', Some e) /\ (exists addr', CInv m' addr') /\
+    forall k, clookup m' k = (clookup m k || eqb_ln k key)%bool.
+Proof. exact cs_insert_spec. Qed.
+Check cs_insert_adds_exactly : forall m key, bytes_ok key -> COK m ->
+  exists m' e, cs_insert m key = (m', Some e) /\ (exists addr', CInv m' addr') /\
+    forall k, clookup m' k = (clookup m k || eqb_ln k key)%bool.
+Print Assumptions cs_insert_adds_exactly.
+
+(* keys() / keys_with_prefix(p) (in whatever order the hash maps iterate; the observation is sorted) list exactly the
+   members (with prefix p), each once *)
+Theorem cs_keys_enumerates : forall st S k, CRel st S -> (In k (sort_keys (cs_keys (c_map st))) <-> In k S).
+Proof. exact cs_keys_enumerates_proof. Qed.
+Check cs_keys_enumerates : forall st S k, CRel st S -> (In k (sort_keys (cs_keys (c_map st))) <-> In k S).
+Print Assumptions cs_keys_enumerates.
+
+Theorem cs_prefix_query_exact : forall st S p k, CRel st S ->
+  (In k (sort_keys (cs_prefix (c_map st) p)) <-> In k S /\ exists k2, k = p ++ k2).
+Proof. exact cs_prefix_query_exact_proof. Qed.
+Check cs_prefix_query_exact : forall st S p k, CRel st S ->
+  (In k (sort_keys (cs_prefix (c_map st) p)) <-> In k S /\ exists k2, k = p ++ k2).
+Print Assumptions cs_prefix_query_exact.
+
+Theorem cs_keys_no_duplicates : forall st S p, CRel st S ->
+  NoDup (sort_keys (cs_keys (c_map st))) /\ NoDup (sort_keys (cs_prefix (c_map st) p)).
+Proof. exact cs_keys_no_duplicates_proof. Qed.
+Check cs_keys_no_duplicates : forall st S p, CRel st S ->
+  NoDup (sort_keys (cs_keys (c_map st))) /\ NoDup (sort_keys (cs_prefix (c_map st) p)).
+Print Assumptions cs_keys_no_duplicates.
+
+Theorem cs_clone_preserves : forall st S, CRel st S -> CRel (cs_clone st) S.
+Proof. exact cs_clone_preserves_proof. Qed.
+Check cs_clone_preserves : forall st S, CRel st S -> CRel (cs_clone st) S.
+Print Assumptions cs_clone_preserves.
+
+Theorem cs_remove_refuted : exists ops, Forall op_ok ops /\ cs_run c_empty ops <> s_run [] ops.
+Proof. exact cs_remove_refuted_proof. Qed.
+Check cs_remove_refuted : exists ops, Forall op_ok ops /\ cs_run c_empty ops <> s_run [] ops.
+Print Assumptions cs_remove_refuted.
